@@ -388,8 +388,9 @@ func evalRange(node *jparse.RangeNode, data reflect.Value, env *environment) (re
 	results := reflect.MakeSlice(typeInterfaceSlice, size, size)
 
 	for i := 0; i < size; i++ {
-		results.Index(i).Set(reflect.ValueOf(lhs))
-		lhs++
+		// lhs+i is the double nearest to the i-th integer of the
+		// range. Repeatedly adding 1 stalls above 2^53.
+		results.Index(i).Set(reflect.ValueOf(lhs + float64(i)))
 	}
 
 	return results, nil
